@@ -94,12 +94,18 @@ func exploreProperty(id, level, rule string, assume []string, cloud bool, oracle
 			for _, sc := range scens(tier) {
 				jobs = append(jobs, ExploreJob(id, sc, oracle))
 			}
-			return jobs
+			return append(jobs, ipamHistJobs(id, cloud, oracle, tier)...)
 		}})
-	replayers[id] = func(tier string, v coop.Violation) int { return replayExplore(id, scens(tier), oracle, v) }
+	replayers[id] = func(tier string, v coop.Violation) int {
+		if len(v.Ops) > 0 {
+			return replayIpamHist(id, cloud, oracle, v)
+		}
+		return replayExplore(id, scens(tier), oracle, v)
+	}
 }
 
-const ruleExplore = "stateless DFS over all schedules of the scenario's managed threads (scheduling points: lock acquisitions, API-server calls, " +
+const ruleExplore = "(a) explicit-state BFS over sequential operation histories (create, schedule on the first / last offered node, delete, finish, deliver / drop an event, resync, scale, delete-app, API release; with a provider also a " +
+	"scheduling attempt and an event delivery during which one provider call fails) per workload x policy class incl. two-IP pods, from the initial state and from three non-initial states, the oracle on every state; (b) stateless DFS over all schedules of the scenario's managed threads (scheduling points: lock acquisitions, API-server calls, " +
 	"provider calls, retries) within the deviation bounds in `bounds` (preemptions, injected API faults, map-order rotations); one evaluation = one complete " +
 	"execution of the real code with the oracle evaluated at every scheduling point; distinct = distinct hashes of (IPAM tables, FloatingIP objects, " +
 	"binding log, provider log) at the end; non-trivial = at least two different threads wrote to the store / bound a pod / called the provider"
@@ -112,9 +118,9 @@ var assumeIPAM = []string{
 }
 
 func init() {
-	exploreProperty("C01", "exploration", ruleExplore, assumeIPAM, false, oracleC01, 100, 1200)
-	exploreProperty("C04", "exploration", ruleExplore, assumeIPAM, true, oracleC04, 100, 1200)
-	exploreProperty("C10", "exploration", ruleExplore, assumeIPAM, true, oracleC10, 100, 1200)
+	exploreProperty("C01", "exploration", ruleExplore, assumeIPAM, false, oracleC01, 170, 1200)
+	exploreProperty("C04", "exploration", ruleExplore, assumeIPAM, true, oracleC04, 170, 1200)
+	exploreProperty("C10", "exploration", ruleExplore, assumeIPAM, true, oracleC10, 170, 1200)
 }
 
 // c10Scenarios: the shared families with a recording provider, one clean provider failure (retried by the caller) and a
